@@ -11,11 +11,22 @@ import struct
 from .. import fsim, interp
 
 ID = "C06"
-LEAN_MODULES = ["Ebv.Props.C06"]
+LEAN_MODULES = ["Ebv.Props.C06", "Ebv.Props.C06TV"]
 MODEL_MODULES = ["Ebv.Model.Xadd"]
 DRIVER = "Drivers/C06.lean"
-THEOREMS = ["Ebv.C06.invariant", "Ebv.C06.no_lost_update", "Ebv.C06.cell_in_range", "Ebv.C06.racy_loses"]
-TRUSTED = ["hand-written schedule model Ebv.Xadd; the tie is the shape check of the real emitted code (one XADD on the variable, no other access) "
+THEOREMS = ["Ebv.C06.invariant", "Ebv.C06.no_lost_update", "Ebv.C06.cell_in_range", "Ebv.C06.racy_loses",
+            # translation validation: every member of the regenerated table of 420 real statements has the shape the schedule model assumes
+            "Ebv.C06TV.table_shape", "Ebv.C06TV.table_syntax", "Ebv.C06TV.table_covers", "Ebv.C06TV.table_ok",
+            "Ebv.C06TV.pre_private", "Ebv.C06TV.xadd_on_variable", "Ebv.C06TV.post_private", "Ebv.C06TV.stmt_run",
+            "Ebv.C06TV.table_run", "Ebv.C06TV.stmt_is_step", "Ebv.C06TV.real_sum", "Ebv.C06TV.real_no_lost_update",
+            "Ebv.C06TV.amountZ_oracle", "Ebv.C06TV.exLay", "Ebv.C06TV.exLayCom", "Ebv.C06TV.exLayLoc"]
+REGEN_OBLIGATIONS = ["the 420 statements regenerated into Ebv.Generated.ProgramsXadd (formats x memory/address kinds x amount kinds x constants) are "
+                     "'private computation; one XADD on the variable; no load anywhere' and one run is one Xadd.stepThread (re-proved against the code emitted now)"]
+TRUSTED = ["translation validation by proof (Ebv.C06TV.table_shape/xadd_on_variable/stmt_is_step/real_no_lost_update): for the regenerated table "
+           "the real bytecode is proved, under Ebv.Ebpf + Ebv.XdpRun.runXdp, to be pre ++ [XADD on the variable's address and width, source = amount] ++ "
+           "post with no load instruction at all, pre/post not touching the variable, and one run = one step of the schedule model; non-interference "
+           "is between runs (memories differing on the variable), the instruction-level part is the syntactic one (exactly one XADD, no LD/LDX)",
+           "hand-written schedule model Ebv.Xadd; the tie is the shape check of the real emitted code (one XADD on the variable, no other access) "
            "re-done on every run for the whole family, plus interleaved execution of the real code in harness/vh/interp.py",
            "harness/vh/interp.py executes XADD as one atomic step"]
 ASSUMPTIONS = ["the kernel/CPU executes BPF_XADD (atomic add) atomically", "each instance has private registers and stack; only map memory is shared",
@@ -235,7 +246,8 @@ def replay(ctx, case):
     return {"final": final}
 
 
-LEVEL_TEXT = ("Lean 4 proof over a schedule model: for any number of instances and any interleaving at instruction granularity, code of the shape "
+LEVEL_TEXT = ("Translation validation by proof of 420 regenerated statements (each is private computation + exactly one XADD on the variable + no load; "
+              "one run = one step of the schedule model) + Lean 4 proof over a schedule model: for any number of instances and any interleaving at instruction granularity, code of the shape "
               "'private computation of the amount; one atomic XADD on the variable' keeps 'cell + amounts not yet added' invariant modulo 2^width, so "
               "once all instances completed the variable has changed by exactly the sum of all amounts. Tie: for every member of the statement family the "
               "real emitted code is re-generated each run and checked to have that shape (one XADD on the variable's address, no other access), and "
